@@ -167,7 +167,19 @@ def _case(draw):
     ctx = draw(talgen.context(hostile=True))
     if mode == "skeleton":
         tpl = _strip_structure(tpl)
-    return {"mode": mode, "template": tpl, "ctx": ctx, "minimize": draw(st.booleans())}
+    c = {"mode": mode, "template": tpl, "ctx": ctx, "minimize": draw(st.booleans())}
+    if mode == "restore" and draw(st.booleans()):
+        # the include-with-parameter idiom: an element that defines a local AND inserts a compiled template from the
+        # context as structure - at top level and inside a repeat
+        how = draw(st.sampled_from(["replace", "content"]))
+        inc = {"t": "el", "tag": "div", "attrs": [["id", "inc"]], "tal": {"define": "incv s1", how: "structure subtpl"}, "metal": {},
+               "kids": [{"t": "text", "s": "x"}], "void": False}
+        rep = {"t": "el", "tag": "ul", "attrs": [], "tal": {"repeat": "incit lst"}, "metal": {}, "void": False,
+               "kids": [{"t": "el", "tag": "li", "attrs": [], "tal": {"define": "incw incit", how: "structure subtpl"}, "metal": {},
+                         "kids": [], "void": False}]}
+        c["template"] = tpl + draw(st.sampled_from([[inc], [rep], [inc, rep], [rep, inc]])) + draw(talgen.nodes(0, {}))
+        c["include"] = True
+    return c
 
 
 def strategy(tier):
@@ -341,6 +353,9 @@ def _check_restore(case, ctx):
     text = M.serialise(case["template"])
     tpl = simpleTAL.compileHTMLTemplate(text, minimizeBooleanAtts=1 if case.get("minimize") else 0)
     c = c17.make_context(case["ctx"])
+    if case.get("include"):
+        c.addGlobal("subtpl", simpleTAL.compileHTMLTemplate(
+            '<b tal:content="s1">x</b><i tal:define="q s2" tal:content="q">y</i><u tal:repeat="r lst2" tal:content="r">z</u>'))
     before_globals = dict(c.globals)
     before_locals = dict(c.locals)
     out = io.StringIO()
@@ -352,7 +367,7 @@ def _check_restore(case, ctx):
     hasdef = "tal:define" in text or " define=" in text
     if rep or hasdef:
         ctx.nontriv()
-    ctx.label("restore", "restore-repeats:%d" % min(rep, 3), "restore-define:%s" % hasdef)
+    ctx.label("restore", "restore-repeats:%d" % min(rep, 3), "restore-define:%s" % hasdef, "restore-include:%s" % bool(case.get("include")))
     ctx.sample({"template": text[:500]}, cls="restore")
     fails = []
     if c.locals != before_locals:
